@@ -1391,6 +1391,12 @@ theorem jumpAdvance_le (s0 s : PS) (k : Nat) (ht : s.toks = s0.toks) (hT : ToksO
   have := inv_after (L := L) s.toks (k + 1) s.cur (by rw [ht]; exact hT) (by rw [ht]; exact hb)
   exact this
 
+theorem jumpTo_le (s0 s : PS) (ht : s.toks = s0.toks) (hi : Inv L s0) : Le L s0 (s.jumpTo s0.pos) := by
+  refine ⟨by simp [PS.jumpTo, ht], by simp [PS.jumpTo], ?_⟩
+  refine ⟨by simp only [PS.jumpTo, ht]; exact hi.1, by simp only [PS.jumpTo, ht]; exact hi.2.1, Or.inl ?_⟩
+  simp only [PS.jumpTo, ht]
+  rw [List.getD_eq_getElem?_getD, List.getElem?_eq_getElem hi.2.1]; rfl
+
 theorem getSpecEnv_spec (s : PS) (hi : Inv L s) : Spec L (Le L) s (getSpecEnv s) := by
   unfold getSpecEnv
   rcases expect_cases s .underline hi (by decide) with ⟨he, h1⟩ | he
@@ -1400,16 +1406,12 @@ theorem getSpecEnv_spec (s : PS) (hi : Inv L s) : Spec L (Le L) s (getSpecEnv s)
       refine Spec.bind (R1 := Le L) (R2 := fun _ c => Le L s c) (R3 := Le L) (getEnvElements_spec false s.advance.advance h2.inv) (fun x s3 h3 => ?_) (fun b c _ h => h)
       rcases expect_cases s3 .underline h3.inv (by decide) with ⟨he4, h4⟩ | he4
       · simp only [he4, if_true]
-        have hb := h1.inv.2.1
-        simp only [advance_pos, advance_toks] at hb
-        exact jumpAdvance_le s _ _ (by rw [advance_toks, h3.toks_eq]; rfl) hi.1 (by omega) (by omega)
+        exact jumpTo_le s _ (by rw [advance_toks, h3.toks_eq]; rfl) hi
       · simp only [he4]
         refine NoFuel.bind (prev_nofuel s3 h3.inv (Nat.le_trans h2.pos_pos h3.le)) (fun p => ?_)
         exact ((h1.trans h2).toLe.trans h3)
     · simp only [he2]
-      have hb := h1.inv.2.1
-      simp only [advance_pos, advance_toks] at hb
-      exact jumpAdvance_le s _ _ rfl hi.1 (by simp only [advance_pos]; omega) (by simp only [advance_pos]; omega)
+      exact jumpTo_le s _ rfl hi
   · simp only [he]
     exact Le.refl s hi
 
